@@ -8,7 +8,7 @@
       (codec  ...)  SerializeCursor of a value, DeserializeCursor of the result
       (decode ...)  DeserializeCursor of an arbitrary string *)
 From Coq Require Import List NArith ZArith Bool String.
-From ApiFu Require Import Base.Sexp Relay.CursorCodec Relay.RelayModel Relay.RelaySpec.
+From ApiFu Require Import Base.Sexp Relay.CursorCodec Relay.RelayModel Relay.RelayModelF Relay.RelaySpec.
 Import ListNotations.
 Open Scope string_scope.
 Open Scope list_scope.
@@ -21,6 +21,7 @@ Definition cursor_eqb (a b : cursor) : bool :=
   match a, b with
   | CInt x, CInt y => Z.eqb x y
   | CStr x, CStr y => bytes_eqb x y
+  | CTime n i, CTime m j => Z.eqb n m && bytes_eqb i j
   | _, _ => false
   end.
 Definition edge_eqb (a b : edge) : bool := cursor_eqb (fst a) (fst b) && Z.eqb (snd a) (snd b).
@@ -39,16 +40,27 @@ Fixpoint list_eqb {A} (f : A -> A -> bool) (a b : list A) : bool :=
 
 (** ** decoding *)
 Definition dec_cursor (s : sexp) : option cursor :=
-  match s with SZ z => Some (CInt z) | SStr b => Some (CStr b) | _ => None end.
+  match s with
+  | SZ z => Some (CInt z)
+  | SStr b => Some (CStr b)
+  | _ => match tagged "time" s with
+         | Some [n; i] => match as_Z n, as_bytes i with Some n', Some i' => Some (CTime n' i') | _, _ => None end
+         | _ => None
+         end
+  end.
+Definition enc_cursor (c : cursor) : sexp :=
+  match c with CInt z => SZ z | CStr b => SStr b | CTime n i => tag "time" [SZ n; SStr i] end.
 Definition dec_edge (s : sexp) : option edge :=
   match s with
   | SL [c; n] => match dec_cursor c, as_Z n with Some c', Some n' => Some (c', n') | _, _ => None end
   | _ => None
   end.
 Definition dec_kind (s : sexp) : option kind :=
-  if is_sym "int" s then Some KInt else if is_sym "str" s then Some KStr else None.
+  if is_sym "int" s then Some KInt else if is_sym "str" s then Some KStr
+  else if is_sym "time" s then Some KTime else None.
 Definition dec_mode_all (s : sexp) : option bool :=
-  if is_sym "all" s then Some true else if is_sym "window" s then Some false else None.
+  if is_sym "all" s then Some true else if is_sym "window" s then Some false
+  else if is_sym "timeconn" s then Some false else None.
 
 (** (none) | (some c) | (panic) *)
 Inductive dres := DNone | DSome (c : cursor) | DPanic.
@@ -170,8 +182,9 @@ Definition candidates (s : list edge) : list (option cursor) :=
   flat_map (fun e => match ecur e with
                      | CInt z => [Some (CInt (z - 1)); Some (CInt z); Some (CInt (z + 1))]
                      | CStr b => [Some (CStr b); Some (CStr (b ++ [0%N]))]
+                     | CTime n i => [Some (CTime (n - 1) i); Some (CTime n i); Some (CTime n (i ++ [0%N]))]
                      end) s
-  ++ [Some (CInt 0); Some (CStr [])].
+  ++ [Some (CInt 0); Some (CStr []); Some (CTime 0 [])].
 Definition pos_candidates (s : list edge) (p : pos) : list (option cursor) :=
   match p with PKnown c => [c] | PUnknown => candidates s end.
 Definition pos_unknown (p : pos) : bool := match p with PUnknown => true | _ => false end.
@@ -256,8 +269,25 @@ Record creq := {
   cq_sel_edges : bool; cq_sel_pi : bool; cq_sel_total : bool;
   cq_first : option Z; cq_last : option Z; cq_after : option bytes; cq_before : option bytes;
   cq_apos : pos; cq_bpos : pos;
-  cq_calls : list rcall; cq_obs : obs
+  cq_calls : list rcall; cq_obs : obs;
+  cq_dir : direction;                         (* ConnectionConfig.Direction *)
+  cq_given : bool * bool * bool * bool;       (* first / last / after / before written in the document at all (null counts) *)
+  cq_ser_fails : bool;                        (* the cursor type is one msgpack cannot encode *)
+  cq_timeconn : bool;                         (* the field is a TimeBasedConnection: the recorded call is
+                                                 reconstructed from its EdgeGetter calls (C16 owns the range queries) *)
+  cq_getter : list (result (later (list edge))) (* ... and these are the getter's answers, in query order *)
 }.
+
+Definition mk_warg {A} (given : bool) (v : option A) : warg A :=
+  match v with Some a => WVal a | None => if given then WNull else WAbsent end.
+Definition model_wargs (q : creq) : wargs :=
+  let '(gf, gl, ga, gb) := cq_given q in
+  {| w_first := mk_warg gf (cq_first q); w_last := mk_warg gl (cq_last q);
+     w_after := mk_warg ga (cq_after q); w_before := mk_warg gb (cq_before q) |}.
+
+(** SerializeCursor of the configured cursor type *)
+Definition model_encode (q : creq) (c : cursor) : option bytes :=
+  if cq_ser_fails q then None else cursor_encode_f c.
 
 Definition mk_app (all promise : bool) (fail : option bool) (total_fails : bool)
            (es window : list edge) (total : Z) : app cursor edge :=
@@ -270,7 +300,7 @@ Definition mk_app (all promise : bool) (fail : option bool) (total_fails : bool)
   {| app_has_all := all; app_all := wrap es; app_edges := fun _ _ _ => wrap window;
      app_total := if all then None else Some (if total_fails then Err EApp else Ok total) |}.
 
-Definition ser_edge (e : edge) : bytes * Z := (cursor_encode (fst e), snd e).
+Definition ser_edge (e : bytes * edge) : bytes * Z := (fst e, snd (snd e)).
 Definition oedge_eqb (a b : bytes * Z) : bool := bytes_eqb (fst a) (fst b) && Z.eqb (snd a) (snd b).
 Definition is_err {A} (r : result A) : bool := match r with Err _ => true | Ok _ => false end.
 
@@ -303,8 +333,21 @@ Definition model_args (q : creq) : args :=
 (** compare the observation with the model; [None] = agree *)
 Definition compare_conn (es : list edge) (total : Z) (q : creq) : option sexp :=
   let window := match cq_calls q with r :: _ => rc_returned r | [] => [] end in
-  let a := mk_app (cq_all q) (cq_promise q) (cq_fail q) (cq_total_fails q) es window total in
-  let '(r, calls) := resolve cursor edge cursor_ltb ecur cursor_encode (cursor_decode (cq_kind q)) a (model_args q) in
+  let a := if cq_timeconn q
+           then (* TimeBasedConnection: ResolveEdges = the model's collection of the getter's answers *)
+             {| app_has_all := false; app_all := Err EApp;
+                app_edges := fun _ _ _ => time_resolve_edges edge (cq_getter q);
+                app_total := Some (Ok total) |}
+           else mk_app (cq_all q) (cq_promise q) (cq_fail q) (cq_total_fails q) es window total in
+  match accept_args (cq_dir q) (model_wargs q) with
+  | None =>
+      (* rejected by validation: an error, and the application is never asked *)
+      match cq_obs q, cq_calls q with
+      | OError, [] => None
+      | _, _ => Some (v_mismatch "validation" [])
+      end
+  | Some ar =>
+  let '(r, calls) := resolve_f cursor edge cursor_ltb ecur (model_encode q) (cursor_decode (cq_kind q)) a ar in
   let expected_calls :=
     calls ++ match await r with
              | Ok c => if cq_sel_pi q then cn_page_info_calls c else []
@@ -314,15 +357,15 @@ Definition compare_conn (es : list edge) (total : Z) (q : creq) : option sexp :=
     Some (v_mismatch "resolve-edges-calls" [of_nat (List.length expected_calls);
                                             of_list (fun k => SZ (k_limit k)) expected_calls])
   else
-  match observe cursor edge r, cq_obs q with
-  | RError EPanicked, OPanic => None
+  match observe_f cursor edge ecur (model_encode q) (cq_sel_edges q) r, cq_obs q with
+  | FError EPanicked, OPanic => None
   | _, OPanic => Some (v_mismatch "panic" [])
-  | RError _, OError => None
-  | RError _, OData _ => Some (v_mismatch "model-error-impl-data" [])
-  | RData _ pi tot, OError =>
+  | FError _, OError => None
+  | FError _, OData _ => Some (v_mismatch "model-error-impl-data" [])
+  | FData _ pi tot, OError =>
       if (cq_sel_pi q && is_err pi) || (cq_sel_total q && is_err tot) then None
       else Some (v_mismatch "model-data-impl-error" [])
-  | RData edges pi tot, OData p =>
+  | FData edges pi tot, OData p =>
       if negb (opt_eqb (list_eqb oedge_eqb) (ob_edges p) (if cq_sel_edges q then Some (map ser_edge edges) else None))
       then Some (v_mismatch "edges" [of_list (fun e => SL [SStr (fst e); SZ (snd e)]) (map ser_edge edges)])
       else
@@ -345,6 +388,7 @@ Definition compare_conn (es : list edge) (total : Z) (q : creq) : option sexp :=
               end
             else match ob_total p with None => None | Some _ => Some (v_mismatch "total-selection" []) end
         end
+  end
   end.
 
 Definition dec_fail (l : list sexp) : option (option bool * bool) :=
@@ -358,6 +402,46 @@ Definition dec_fail (l : list sexp) : option (option bool * bool) :=
       | None => None
       end
   | _ => None
+  end.
+
+(** optional fields (absent in stage-A corpus lines): direction, which arguments were written,
+    unencodable cursor type *)
+Definition dec_dir (l : list sexp) : option direction :=
+  match field1 "direction" l with
+  | None => Some Bidirectional
+  | Some d => if is_sym "bidi" d then Some Bidirectional
+              else if is_sym "fwd-only" d then Some ForwardOnly
+              else if is_sym "bwd-only" d then Some BackwardOnly else None
+  end.
+Definition dec_given (l : list sexp) : option (bool * bool * bool * bool) :=
+  match field "given" l with
+  | None => Some (true, true, true, true)
+  | Some [a; b; c; d] =>
+      match as_bool a, as_bool b, as_bool c, as_bool d with
+      | Some a', Some b', Some c', Some d' => Some (a', b', c', d')
+      | _, _, _, _ => None
+      end
+  | Some _ => None
+  end.
+Definition dec_ser_fails (l : list sexp) : option bool :=
+  match field1 "ser-fails" l with None => Some false | Some b => as_bool b end.
+
+(** ((sync|promise) edges) per EdgeGetter call; undecodable = no answers *)
+Definition dec_getter (l : list sexp) : list (result (later (list edge))) :=
+  match field1 "getter-answers" l with
+  | Some (SL gs) =>
+      match map_opt (fun g => match g with
+                              | SL [k; es] =>
+                                  match as_list_of dec_edge es with
+                                  | Some es' => if is_sym "promise" k then Some (Ok (Promise (Ok es'))) else Some (Ok (Sync es'))
+                                  | None => None
+                                  end
+                              | _ => None
+                              end) gs with
+      | Some r => r
+      | None => []
+      end
+  | _ => []
   end.
 
 Definition dec_creq (l : list sexp) : option creq :=
@@ -376,10 +460,17 @@ Definition dec_creq (l : list sexp) : option creq :=
                   | Some ap, Some bp, Some cs, Some o =>
                       match dec_pos ap, dec_pos bp, as_list_of dec_rcall cs, dec_obs o with
                       | Some ap', Some bp', Some cs', Some o' =>
-                          Some {| cq_kind := k'; cq_all := m'; cq_promise := pr'; cq_fail := fl; cq_total_fails := tf;
-                                  cq_sel_edges := se'; cq_sel_pi := sp'; cq_sel_total := st';
-                                  cq_first := f'; cq_last := la'; cq_after := af'; cq_before := be';
-                                  cq_apos := ap'; cq_bpos := bp'; cq_calls := cs'; cq_obs := o' |}
+                          match dec_dir l, dec_given l, dec_ser_fails l with
+                          | Some d, Some g, Some sf =>
+                              Some {| cq_kind := k'; cq_all := m'; cq_promise := pr'; cq_fail := fl; cq_total_fails := tf;
+                                      cq_sel_edges := se'; cq_sel_pi := sp'; cq_sel_total := st';
+                                      cq_first := f'; cq_last := la'; cq_after := af'; cq_before := be';
+                                      cq_apos := ap'; cq_bpos := bp'; cq_calls := cs'; cq_obs := o';
+                                      cq_dir := d; cq_given := g; cq_ser_fails := sf;
+                                      cq_timeconn := is_sym "timeconn" m;
+                                      cq_getter := dec_getter l |}
+                          | _, _, _ => None
+                          end
                       | _, _, _, _ => None
                       end
                   | _, _, _, _ => None
@@ -396,6 +487,11 @@ Definition dec_creq (l : list sexp) : option creq :=
 
 Definition app_misbehaves (q : creq) : bool :=
   match cq_fail q with Some _ => true | None => false end || cq_total_fails q.
+
+Definition enc_all_ok (es : list edge) (q : creq) : bool :=
+  forallb (fun e => match model_encode q (ecur e) with Some _ => true | None => false end) es.
+Definition dir_classes (q : creq) : list string :=
+  match cq_dir q with Bidirectional => [] | ForwardOnly => ["forward-only"] | BackwardOnly => ["backward-only"] end.
 
 (** evidence classes of a connection request (from the model and the spec, not from the
     implementation's answer) *)
@@ -418,9 +514,12 @@ Definition conn_classes (es s : list edge) (q : creq) : list string :=
                    (if next then ["has-next"] else []) ++ (if prev then ["has-prev"] else [])
                | _ => []
                end in
+  let accepted := match accept_args (cq_dir q) (model_wargs q) with Some _ => true | None => false end in
   if app_misbehaves q then ["conn"; "app-error"] else
-  ["conn"] ++ (if cq_all q then ["mode-all"] else ["mode-window"]) ++ (if cq_promise q then ["promise"] else ["sync"])
-  ++ (match cq_kind q with KInt => [] | KStr => ["string-cursors"] end)
+  if negb (enc_all_ok es q) then ["conn"; "serialize-cursor-fails"] ++ (match cq_obs q with OError => ["serialize-error-observed"] | _ => [] end) else
+  if negb accepted then ["conn"; "validation-error"] ++ dir_classes q else
+  ["conn"] ++ dir_classes q ++ (if cq_timeconn q then ["time-based-connection"] else []) ++ (if cq_all q then ["mode-all"] else ["mode-window"]) ++ (if cq_promise q then ["promise"] else ["sync"])
+  ++ (match cq_kind q with KInt => [] | KStr => ["string-cursors"] | KTime => ["time-cursors"] end)
   ++ (if rejected then ["arg-error"] else [])
   ++ (if negb rejected && zero then ["lazy-zero"] else [])
   ++ (if hostile then ["hostile-cursor"] else [])
@@ -436,12 +535,21 @@ Definition run_conn (es : list edge) (total : Z) (tbl : list (bytes * option cur
   : sexp + list string :=
   let s := rank_sort es in
   if negb (is_connection_of es s) then inl (v_bad "edge-set-not-distinct")
-  else if negb (app_misbehaves q) && negb (forallb (window_ok s) (cq_calls q)) then inl (v_bad "harness-window-not-ok")
+  else if negb (app_misbehaves q) && negb (forallb (window_ok s) (cq_calls q)) then
+    (if cq_timeconn q then inl (v_oracle_fail "timeconn-window-incomplete" []) else inl (v_bad "harness-window-not-ok"))
   else
-    (* C09 speaks about applications that answer; with a failing one only "no crash" is demanded
-       by the oracle, and the model's error paths are compared *)
-    match (if app_misbehaves q then match cq_obs q with OPanic => Some "crash" | _ => None end
-           else oracle_conn es s tbl (cq_first q) (cq_last q) (cq_apos q) (cq_bpos q) (cq_obs q)) with
+    (* C09 speaks about applications that answer and cursors that can be serialised; with a failing
+       application or an unencodable cursor only "no crash" is demanded by the oracle, and the
+       model's error paths are compared *)
+    match (if app_misbehaves q || negb (enc_all_ok es q) then match cq_obs q with OPanic => Some "crash" | _ => None end
+           else match accept_args (cq_dir q) (model_wargs q) with
+                | None => match cq_obs q with
+                          | OError => None
+                          | OPanic => Some "crash"
+                          | OData _ => Some "undefined-argument-accepted"
+                          end
+                | Some ar => oracle_conn es s tbl (a_first ar) (a_last ar) (cq_apos q) (cq_bpos q) (cq_obs q)
+                end) with
     | Some key => inl (v_oracle_fail key [])
     | None =>
         match compare_conn es total q with
@@ -455,7 +563,13 @@ Definition check_conn (l : list sexp) : sexp :=
   | Some e, Some t, Some tb, Some q =>
       match as_list_of dec_edge e, as_Z t, dec_table tb with
       | Some es, Some total, Some tbl =>
-          match run_conn es total tbl q with inl v => v | inr cl => v_ok cl end
+          match run_conn es total tbl q with
+          | inl v => v
+          | inr cl => v_ok (cl ++ match field1 "via-interface" l with
+                                  | Some b => if is_sym "true" b then ["via-connection-interface"] else []
+                                  | None => []
+                                  end)
+          end
       | _, _, _ => v_bad "conn-decode"
       end
   | _, _, _, _ => v_bad "conn-fields"
@@ -516,7 +630,7 @@ Definition check_walk (l : list sexp) : sexp :=
       | Some es, Some total, Some tbl, Some n' =>
           let fwd := is_sym "fwd" d in
           let base := filter (fun x => match untag x with
-                                       | Some (t, _) => String.eqb t "kind" || String.eqb t "mode" || String.eqb t "promise" || String.eqb t "sel" || String.eqb t "app-fails"
+                                       | Some (t, _) => String.eqb t "kind" || String.eqb t "mode" || String.eqb t "promise" || String.eqb t "sel" || String.eqb t "app-fails" || String.eqb t "direction" || String.eqb t "ser-fails"
                                        | None => false end) l in
           match map_opt (dec_step base) ss with
           | None => v_bad "walk-steps"
@@ -634,23 +748,50 @@ Definition dres_eqb (a : option cursor) (b : dres) : bool :=
   | _, _ => false
   end.
 
+Definition kind_class (k : kind) : string :=
+  match k with KInt => "int" | KStr => "string" | KTime => "time" end.
+
 Definition check_codec (l : list sexp) : sexp :=
   match field1 "kind" l, field1 "value" l, field1 "serialized" l, field1 "decoded" l with
   | Some k, Some v, Some s, Some d =>
-      match dec_kind k, dec_cursor v, as_bytes s, dec_dres d with
-      | Some k', Some v', Some s', Some d' =>
+      match dec_kind k, dec_cursor v, as_option as_bytes s, dec_dres d with
+      | Some k', Some v', Some None, _ =>
+          (* SerializeCursor returned an error: the model's must fail too (MaxCursorLength) *)
+          match cursor_encode_f v' with
+          | None => v_ok ["codec"; "serialize-fails"; append "codec-" (kind_class k')]
+          | Some s' => v_mismatch "serialize-cursor-fails" [SStr s']
+          end
+      | Some k', Some v', Some (Some s'), Some d' =>
           match d' with
           | DPanic => v_oracle_fail "crash" []
           | _ =>
               if negb (dres_eqb (Some v') d') then v_oracle_fail "cursor-roundtrip" []
-              else if negb (bytes_eqb (cursor_encode v') s') then v_mismatch "serialize-cursor" [SStr (cursor_encode v')]
-              else if negb (dres_eqb (cursor_decode k' s') d') then v_mismatch "deserialize-cursor" []
-              else v_ok (["codec"; "nontrivial"] ++ match k' with KInt => ["codec-int"] | KStr => ["codec-string"] end)
+              else match cursor_encode_f v' with
+                   | None => v_mismatch "serialize-cursor-succeeds" []
+                   | Some ms =>
+                       if negb (bytes_eqb ms s') then v_mismatch "serialize-cursor" [SStr ms]
+                       else if negb (dres_eqb (cursor_decode k' s') d') then v_mismatch "deserialize-cursor" []
+                       else v_ok ["codec"; "nontrivial"; append "codec-" (kind_class k')]
+                   end
           end
       | _, _, _, _ => v_bad "codec-decode"
       end
   | _, _, _, _ => v_bad "codec-fields"
   end.
+
+(** the msgpack family of the first byte of the document behind a cursor string (evidence classes:
+    every family must be reached by the hostile stream) *)
+Definition code_family (c : N) : string :=
+  (if c <=? 127 then "mp-posfixnum" else if c <=? 143 then "mp-fixmap" else if c <=? 159 then "mp-fixarray"
+   else if c <=? 191 then "mp-fixstr" else if c =? 192 then "mp-nil" else if c =? 193 then "mp-c1-unused"
+   else if c <=? 195 then "mp-bool" else if c <=? 198 then "mp-bin" else if c <=? 201 then "mp-ext"
+   else if c <=? 203 then "mp-float" else if c <=? 207 then "mp-uint" else if c <=? 211 then "mp-int"
+   else if c <=? 216 then "mp-fixext" else if c <=? 219 then "mp-str" else if c <=? 221 then "mp-array16-32"
+   else if c <=? 223 then "mp-map16-32" else "mp-negfixnum")%N.
+
+(** more than this much heap allocated by one DeserializeCursor call is "allocation without
+    bound" (msgpack reads a claimed length in chunks of at most 1 MiB) *)
+Definition alloc_limit : Z := 8388608.
 
 Definition check_decode (l : list sexp) : sexp :=
   match field1 "kind" l, field1 "input" l, field1 "result" l with
@@ -660,16 +801,77 @@ Definition check_decode (l : list sexp) : sexp :=
           match r' with
           | DPanic => v_oracle_fail "crash" []
           | _ =>
-              if negb (dres_eqb (cursor_decode k' i') r') then
+              if match field1 "alloc" l with
+                 | Some a => match as_Z a with Some n => (alloc_limit <? n)%Z | None => true end
+                 | None => false
+                 end
+              then v_oracle_fail "decode-allocation" []
+              else if negb (dres_eqb (cursor_decode k' i') r') then
                 v_mismatch "deserialize-cursor" [match cursor_decode k' i' with
                                                  | None => SSym "none"
-                                                 | Some (CInt z) => SZ z
-                                                 | Some (CStr b) => SStr b end]
-              else v_ok (["decode"] ++ match r' with DSome _ => ["hostile-accepted"; "nontrivial"] | _ => ["hostile-rejected"] end)
+                                                 | Some c => enc_cursor c end]
+              else v_ok (["decode"; append "decode-" (kind_class k')]
+                         ++ match r' with DSome _ => ["hostile-accepted"; "nontrivial"] | _ => ["hostile-rejected"] end
+                         ++ (if too_long i' then ["over-max-cursor-length"] else [])
+                         ++ match b64_decode i' with
+                            | Some (c :: rest) =>
+                                [code_family c]
+                                ++ (match k', c :: rest with
+                                    | KTime, _ => if existsb (fun x => (144 <=? x)%N && (x <=? 159)%N || (220 <=? x)%N && (x <=? 223)%N) rest
+                                                  then ["struct-nested-containers"] else []
+                                    | _, _ => []
+                                    end)
+                            | Some [] => ["empty-document"]
+                            | None => ["not-base64"]
+                            end)
           end
       | _, _, _ => v_bad "decode-decode"
       end
   | _, _, _ => v_bad "decode-fields"
+  end.
+
+(** the cost ValidateCost computes for one connection request with the default field cost 1:
+    1 for the connection, the sub-selection of [edges] ([node]: 1, [cursor]: 0) times maxCount — a
+    multiplier is applied only when it exceeds 1 (validate_cost.go; C14 owns that rule) —, 1 for
+    totalCount, 0 for pageInfo *)
+Definition check_cost (l : list sexp) : sexp :=
+  match dec_dir l, dec_given l, field1 "first" l, field1 "last" l, field "sel" l, field1 "obs" l with
+  | Some d, Some (gf, gl, _, _), Some f, Some la, Some [se; sp; st], Some o =>
+      match as_option as_Z f, as_option as_Z la, as_bool se, as_bool sp, as_bool st, as_option as_Z o with
+      | Some f', Some la', Some se', Some sp', Some st', Some o' =>
+          let w := {| w_first := mk_warg gf f'; w_last := mk_warg gl la'; w_after := WAbsent; w_before := WAbsent |} in
+          match accept_args d w, o' with
+          | None, None => v_ok ["cost"; "cost-validation-error"]
+          | None, Some _ => v_oracle_fail "undefined-argument-accepted" []
+          | Some _, None => v_mismatch "cost-document-rejected" []
+          | Some ar, Some c =>
+              let m := max_edge_count ar in
+              let mult := if (m >? 1)%Z then m else 1%Z in
+              let want := (1 + (if se' then mult else 0) + (if st' then 1 else 0))%Z in
+              if Z.eqb c want then v_ok (["cost"] ++ (if (m >? 1)%Z then ["cost-multiplied"; "nontrivial"] else [])
+                                          ++ match a_first ar, a_last ar with Some _, Some _ => ["cost-first-and-last"] | _, _ => [] end)
+              else v_mismatch "connection-cost" [SZ want]
+          end
+      | _, _, _, _, _, _ => v_bad "cost-decode"
+      end
+  | _, _, _, _, _, _ => v_bad "cost-fields"
+  end.
+
+(** a cursor string too long to put into the case line (only its length is given): the model
+    rejects it because of MaxCursorLength alone *)
+Definition check_decode_long (l : list sexp) : sexp :=
+  match field1 "kind" l, field1 "length" l, field1 "result" l with
+  | Some k, Some n, Some r =>
+      match dec_kind k, as_Z n, dec_dres r with
+      | Some k', Some n', Some r' =>
+          match r' with
+          | DPanic => v_oracle_fail "crash" []
+          | DSome _ => if (Z.of_N max_cursor_length <? n')%Z then v_mismatch "deserialize-cursor-too-long-accepted" [] else v_bad "decode-long-short"
+          | DNone => if (Z.of_N max_cursor_length <? n')%Z then v_ok ["decode"; "over-max-cursor-length"; "hostile-rejected"] else v_bad "decode-long-short"
+          end
+      | _, _, _ => v_bad "decode-long-decode"
+      end
+  | _, _, _ => v_bad "decode-long-fields"
   end.
 
 Definition check (c : sexp) : sexp :=
@@ -680,6 +882,8 @@ Definition check (c : sexp) : sexp :=
       else if String.eqb t "walk" then check_walk l
       else if String.eqb t "codec" then check_codec l
       else if String.eqb t "decode" then check_decode l
+      else if String.eqb t "decode-long" then check_decode_long l
+      else if String.eqb t "cost" then check_cost l
       else v_bad "unknown-case-kind"
   | None => v_bad "shape"
   end.
